@@ -16,7 +16,7 @@ def scenarios(tier, rnd):
     n = 60 if tier == "quick" else 600
     for i in range(n):
         q = rnd.choice([1, 2, 3, 4])
-        mode = rnd.choice(["up", "up", "slow", "down"]) if i % 10 else "up"
+        mode = rnd.choice(["up", "up", "slow", "down", "lost"]) if i % 10 else "up"
         ops = []
         started = False
         for j in range(rnd.randint(4, 16)):
@@ -36,6 +36,8 @@ def scenarios(tier, rnd):
             ops.append(dict(op="worker"))
         ops.append(dict(op="drain"))
         scs.append(dict(rid="rc%d" % i, q=q, mode=mode, ops=ops))
+    scs.append(dict(rid="lost-reply", q=3, mode="lost", ops=[dict(op="worker"), dict(op="submit", conn=1, cls="valid"), dict(op="drain"),
+                                                             dict(op="submit", conn=2, cls="valid"), dict(op="submit", conn=1, cls="hash_flip"), dict(op="drain")]))
     # every class once, alone, with the service up
     for c in CLS:
         scs.append(dict(rid="one-" + c, q=2, mode="up", ops=[dict(op="worker"), dict(op="submit", conn=1, cls=c), dict(op="drain")]))
@@ -49,7 +51,7 @@ def run(work, tier, replay=None):
     if not replay:
         for q, npl in ((1, 3), (2, 3)) if tier == "quick" else ((1, 3), (2, 4), (3, 4)):
             pl = list(range(1, npl + 1))
-            cfg = ("SPECIFICATION RSpec\nCONSTANTS\n  Q = %d\n  Payloads = {%s}\n  ValidP = {%s}\n  EmptyP = {%s}\n"
+            cfg = ("SPECIFICATION RSpec\nCONSTANTS\n  Q = %d\n  Payloads = {%s}\n  ValidP = {%s}\n  EmptyP = {%s}\n  RetryOnError = FALSE\n"
                    "INVARIANTS AtMostOnce OnlyAccepted QueueBounded OneAnswer\nPROPERTY EventuallyForwarded\nCHECK_DEADLOCK FALSE\n" % (
                        q, ",".join(map(str, pl)), ",".join(map(str, pl[:2])), str(pl[-1])))
             r = work.tlc("receipt-mc-%d" % q, "Receipt", cfg, workers=4, timeout=1200, dump=False)
@@ -58,7 +60,13 @@ def run(work, tier, replay=None):
             mc_tot["distinct"] += r.get("distinct", 0)
             mc_tot["generated"] += r.get("generated", 0)
             mc_tot["violated"] = mc_tot["violated"] or r.get("violated")
-        work.log("Receipt.tla: %d distinct states%s" % (mc_tot["distinct"], " VIOLATED " + str(mc_tot["violated"]) if mc_tot["violated"] else ""))
+        # sensitivity: the design that posts again after a transport error must be refuted (a lost answer is not a lost receipt)
+        cfgr = ("SPECIFICATION RSpec\nCONSTANTS\n  Q = 1\n  Payloads = {1,2}\n  ValidP = {1}\n  EmptyP = {2}\n  RetryOnError = TRUE\n"
+                "INVARIANTS AtMostOnce\nCHECK_DEADLOCK FALSE\n")
+        rr = work.tlc("receipt-retry", "Receipt", cfgr, workers=2, timeout=300, dump=False)
+        if rr.get("violated") != "AtMostOnce":
+            raise Inconclusive("Receipt.tla no longer refutes the retry-on-error design (AtMostOnce)")
+        work.log("Receipt.tla: %d distinct states%s; retry-on-error design refuted" % (mc_tot["distinct"], " VIOLATED " + str(mc_tot["violated"]) if mc_tot["violated"] else ""))
     scs = [s for s in read_ndjson(replay) if "ops" in s] if replay else scenarios(tier, rnd)
     k = min(8, len(scs))
     parts = [scs[i::k] for i in range(k)]
